@@ -19,6 +19,17 @@ class Expr:
         return f"Expr({self.src})"
 
 
+class ListX:
+    """Expected value: a list expression with these elements (spacing around the commas is not content)."""
+
+    def __init__(self, src):
+        self.src = src
+        self.elements = [x.strip() for x in src.strip()[1:-1].split(",")]
+
+    def __repr__(self):
+        return f"ListX({self.src})"
+
+
 def plural(s):
     return s + "es" if s.endswith("s") else s + "s"
 
@@ -84,6 +95,8 @@ def _value(cls, v):
         return [x.lower() for x in v]
     if cls == "expr":
         return Expr(v["tree"], v["src"])
+    if cls == "listx":
+        return ListX(v)
     if cls in ("nums", "binds", "mixed"):
         return list(v)
     return v
@@ -99,6 +112,12 @@ def compare(exp, act, path="", out=None, hidden_ok=HIDDEN, type_pos_strict=False
     if isinstance(exp, Expr):
         for m in exprs.check_normalised(exp.tree, act):
             out.append((path, m))
+        return out
+    if isinstance(exp, ListX):
+        ok = isinstance(act, str) and act.strip().startswith("{") and act.strip().endswith("}") and \
+            [x.strip() for x in act.strip()[1:-1].split(",")] == exp.elements
+        if not ok:
+            out.append((path, f"list expression {exp.src!r} loaded as {act!r}"))
         return out
     if isinstance(exp, dict):
         if not isinstance(act, dict):
